@@ -42,15 +42,14 @@ def randomized_public_package(ctx):
         if good:
             p = ts[0]
             vs = get_field(p, "verifying_shares")
-            good = is_call(vs, name="collect") and is_call(vs[2][0], name="map") and is_call(vs[2][0][2][0], name="iter") and \
-                fld(arg(1), "verifying_shares")(vs[2][0][2][0][2][0]) and vs[2][0][2][1][0] == "closure"
-            if good:
-                cf = P.fns.get(vs[2][0][2][1][1])
-                ct = TermCx(P, cf).local(0) if cf else None
-                val = unwrap_newtypes(ct[4][1][1]) if ct and ct[0] == "agg" else ("x",)
-                good = (ct is not None and ct[4][0][1] == ("field", ("arg", 2), None, "0") and is_call(val, name="add")
-                        and any(strip_newtype_fields(x) == ("field", ("arg", 2), None, "1") for x in val[2])
-                        and any(is_field(x, "RandomizedParams", "randomizer_element") for x in val[2]))
+            from .c18 import map_each
+
+            def shifted(x):
+                val = unwrap_newtypes(x)
+                return is_call(val, name="add") and len(val[2]) == 2 and \
+                    any(strip_newtype_fields(y) == ("field", ITEM, None, "1") for y in val[2]) and \
+                    any(is_field(y, "RandomizedParams", "randomizer_element") and y[1] == ("arg", 2) for y in val[2])
+            good = map_each(P, f, FnView.get(P, f), vs, fld(arg(1), "verifying_shares"), shifted)
             good = good and fld(arg(2), "randomized_verifying_key")(get_field(p, "verifying_key")) and fld(arg(1), "min_signers")(get_field(p, "min_signers"))
         ctx.check(good and {k for k in adaptor_inventory(f) if k not in LOOKUPS} == set(), "AGREE", f.key,
                   "every Y_i+G*alpha, vk', threshold kept",
@@ -164,7 +163,7 @@ def run(ctx):
     enc = ctx.anchor(CORE + "round1::encode_group_commitments")
     if enc:
         ve = FnView.get(P, enc)
-        et = [ve.cx.operand(rv["ops"][0]) for (b, k, rv) in ret_writes(enc) if k == "ok"]
+        et = ok_values(enc, ve)
         et = et[0] if et else ("unknown", "")
         item = next_item(arg(1))
         for name, pr in (("identifier", lambda s: tfield(item, 0)(s)),
